@@ -8,6 +8,10 @@ package verifhook
 // Point marks a named step (crash point, scheduling point or gate).
 func Point(name string) {}
 
+// PointID is Point for steps that concern one numbered object (e.g. the WAL segment of the
+// memtable a flush worker is about to flush).
+func PointID(name string, id uint64) {}
+
 // Paused reports whether the named background activity is held by the harness.
 func Paused(name string) bool { return false }
 
